@@ -35,8 +35,8 @@ func init() {
 				Thorough: map[string]int{"budget_s": 3000},
 				Reach:    []string{"handler returned with a sub-request in flight"}, Functions: fns},
 			{Name: "two-subscriptions-canonical", Pkg: ".", Files: files, Entry: "VerifTeardown", Mode: "seq",
-				Quick:    map[string]int{"maxsteps": 3, "maxevents": 1, "ticks": 0, "pin_first": 0, "pin_second": 6, "kinds": 10, "mayreset": 1, "barepayload": 1},
-				Thorough: map[string]int{"maxsteps": 3, "maxevents": 1, "ticks": 0, "pin_first": 0, "pin_second": 6, "kinds": 10, "mayreset": 1, "barepayload": 1},
+				Quick:    map[string]int{"maxsteps": 3, "maxevents": 1, "ticks": 0, "pin_first": 0, "pin_second": 6, "kinds": 10, "mayreset": 1, "barepayload": 1, "upbroken": 1},
+				Thorough: map[string]int{"maxsteps": 3, "maxevents": 1, "ticks": 0, "pin_first": 0, "pin_second": 6, "kinds": 10, "mayreset": 1, "barepayload": 1, "upbroken": 1},
 				Reach:    []string{"handler returned", "two subscriptions running"}, Functions: fns},
 			// a second connection_init while a subscription delivers an event: the acknowledgement and the event
 			// frame are written by different goroutines
